@@ -1,0 +1,52 @@
+//go:build verif
+
+package errdef
+
+// Verification hooks. This file is compiled only with the build tag "verif"
+// and adds nothing to the default build. It exposes the process-wide memo of
+// source file availability and the source file cache, so that checks can
+// exercise sequences of "first use" and file availability.
+
+// VerifSourceStateSnapshot is a copy of the process-wide source state.
+type VerifSourceStateSnapshot struct {
+	// AvailableSet reports whether the availability memo has been decided.
+	AvailableSet bool
+	// Available is the memoized value; meaningful only when AvailableSet is true.
+	Available bool
+	// CachedFiles maps every cached file path to its number of lines.
+	CachedFiles map[string]int
+}
+
+// VerifResetSourceState forgets the availability memo and empties the source
+// file cache, each under its own mutex.
+func VerifResetSourceState() {
+	sourceAvailableMu.Lock()
+	sourceAvailable = nil
+	sourceAvailableMu.Unlock()
+
+	sourceFileCacheMu.Lock()
+	sourceFileCache = make(map[string][]string)
+	sourceFileCacheMu.Unlock()
+}
+
+// VerifSourceState returns a copy of the availability memo and of the cache's
+// key set (with line counts), each read under its own mutex.
+func VerifSourceState() VerifSourceStateSnapshot {
+	var s VerifSourceStateSnapshot
+
+	sourceAvailableMu.Lock()
+	if sourceAvailable != nil {
+		s.AvailableSet = true
+		s.Available = *sourceAvailable
+	}
+	sourceAvailableMu.Unlock()
+
+	sourceFileCacheMu.RLock()
+	s.CachedFiles = make(map[string]int, len(sourceFileCache))
+	for path, lines := range sourceFileCache {
+		s.CachedFiles[path] = len(lines)
+	}
+	sourceFileCacheMu.RUnlock()
+
+	return s
+}
